@@ -31,7 +31,17 @@ pub static SEQ: AtomicU64 = AtomicU64::new(1);
 
 unsafe impl GlobalAlloc for Quarantine {
     unsafe fn alloc(&self, l: Layout) -> *mut u8 {
-        System.alloc(l)
+        let p = System.alloc(l);
+        let _ = CAPTURE.try_with(|c| {
+            let (sz, id) = c.get();
+            if sz == l.size() && l.size() != 0 {
+                c.set((0, p as usize));
+                if id != 0 {
+                    track(id, p as usize);
+                }
+            }
+        });
+        p
     }
     unsafe fn dealloc(&self, p: *mut u8, l: Layout) {
         if ENABLED.load(SeqCst) {
@@ -62,6 +72,23 @@ unsafe impl GlobalAlloc for Quarantine {
     unsafe fn realloc(&self, p: *mut u8, l: Layout, n: usize) -> *mut u8 {
         System.realloc(p, l, n)
     }
+}
+
+thread_local! {
+    /// `(size to capture, captured address)`: lets a caller learn the address of a block the
+    /// library allocates without handing out any pointer to it.
+    static CAPTURE: std::cell::Cell<(usize, usize)> = const { std::cell::Cell::new((0, 0)) };
+}
+/// The next allocation of `size` bytes on this thread is registered as object `id` at once.
+pub fn capture_next(size: usize, id: usize) {
+    CAPTURE.with(|c| c.set((size, id)));
+}
+pub fn captured() -> usize {
+    CAPTURE.with(|c| {
+        let v = c.get();
+        c.set((0, 0));
+        v.1
+    })
 }
 
 pub fn enable(b: bool) {
@@ -101,12 +128,12 @@ pub fn free_seq(id: usize) -> u64 {
 }
 
 /// Really frees every quarantined block and forgets all tracked addresses.
-pub fn release_all() {
+pub fn release_all(really_free: bool) {
     let n = NTRACKED.load(SeqCst);
     let was = ENABLED.swap(false, SeqCst);
     for id in 1..=n {
         let a = ADDR[id].swap(0, SeqCst);
-        if a != 0 && NFREE[id].load(SeqCst) > 0 {
+        if really_free && a != 0 && NFREE[id].load(SeqCst) > 0 {
             let l = Layout::from_size_align(SIZE[id].load(SeqCst), ALIGN[id].load(SeqCst)).unwrap();
             unsafe { System.dealloc(a as *mut u8, l) };
         }
